@@ -45,6 +45,11 @@ def cases(tier, seed):
                         out.append({"key": f"passeff/{m}x{n}/r={r}/R={R}/P={P}/v={v}", "fn": "pass_eff_qsvd", "m": m, "n": n, "r": r, "R": R, "P": P, "arg": v})
     for c in out:
         c["S"] = 4 if tier == "quick" else 16
+    # whole-matrix scalings (thresholds inside the algorithms must be relative)
+    for m, n in ((3, 3), (4, 3), (3, 4)):
+        for e in (-50, 40):
+            for fn, arg in (("rand_qsvd", 1), ("pass_eff_qsvd", 3)):
+                out.append({"key": f"scaled/{fn}/{m}x{n}/2^{e}", "fn": fn, "m": m, "n": n, "r": 3, "R": 2, "P": 1, "arg": arg, "scale": e, "S": 4})
     return out
 
 
@@ -55,6 +60,9 @@ def run_case(case, seed):
     fill = G.Fill(seed, stream=hash_tag(f"{m}x{n}/r={r}"))
     vals = VALS[:r] + [0.0] * (p - r)
     A, _, _ = SG.build(m, n, vals, "hh", "hh", fill, variant=r)
+    if case.get("scale"):
+        A = np.ldexp(A, case["scale"])
+        vals = [float(np.ldexp(v, case["scale"])) for v in vals]
     sig = np.array(vals)
     nA = O.fro(A)
     Aq = G.to_quat(A)
@@ -91,16 +99,16 @@ def run_case(case, seed):
             fails.append(fail("U_orthonormal", f"seed {sd}: ||U^H U - I|| = {dU:.3e}", **t2))
         if dV > tolu:
             fails.append(fail("V_orthonormal", f"seed {sd}: ||V^H V - I|| = {dV:.3e}", **t2))
-        if np.any(s < -1e-12) or np.any(np.diff(s) > 1e-10):
+        if np.any(s < -1e-12 * nA) or np.any(np.diff(s) > 1e-10 * nA):
             fails.append(fail("s_nonneg_nonincreasing", f"seed {sd}: s = {s.tolist()}", **t2))
-        if np.any(s > sig[:R] * (1 + 1e-9) + 1e-10):
+        if np.any(s > sig[:R] * (1 + 1e-9) + 1e-10 * nA):
             fails.append(fail("s_i<=sigma_i", f"seed {sd}: s = {s.tolist()} sigma = {sig[:R].tolist()}", **t2))
         rec = O.qmatmul(O.qmatmul(U, G.diag_real(s, R, R)), O.qH(V))
         err = O.fro(A - rec)
         opt = float(np.sqrt(np.sum(sig[R:] ** 2)))
-        if err < opt * (1 - 1e-9) - 1e-10:
+        if err < opt * (1 - 1e-9) - 1e-10 * nA:
             fails.append(fail("error>=eckart_young", f"seed {sd}: error {err!r} < optimum {opt!r}", **t2))
-        if err > nA * (1 + 1e-9) + 1e-10:
+        if err > nA * (1 + 1e-9):
             fails.append(fail("error<=||A||_F", f"seed {sd}: error {err!r} > ||A||_F = {nA!r}", **t2))
         if r <= R and err > 1e-8 * nA:
             fails.append(fail("exact_on_low_rank", f"seed {sd}: rank {r} <= R = {R} but error {err:.3e}", **t2))
